@@ -305,7 +305,7 @@ def _charpath_block(bct, res, case, D, oracle, fname):
         if not _status(res, 'charpath', st, out, case):
             continue
         lam, eff = float(out[0]), float(out[1])
-        vals = oracle[offdiag(n)]
+        vals = np.asarray(D, dtype=float)[offdiag(n)]      # D itself is compared with the oracle by the caller
         if not incinf:
             vals = vals[np.isfinite(vals)]
         if len(vals) == 0:
@@ -336,6 +336,8 @@ def run_case(case):
             _run_nav(bct, case, res)
         elif kind == 'bad':
             _run_bad(bct, case, res)
+        elif kind == 'big':
+            _run_big(bct, case, res)
     except Timeout:
         res['stats']['timeout:harness'] = 1
     return res
@@ -377,23 +379,20 @@ def _run_bin(bct, case, res):
         _cmp_hops(res, 'distance_wei', np.asarray(B), oracle, best)
         res['lines'].append(('dijkstra n=%d A=%s' % (n, Aline), [('D', 'exact', mstr(D)), ('B', 'exact', istr(B))]))
     _floyd_block(bct, res, case, A, None, Lm, oracle, best, 0.0, True)
-    # the five routines agree wherever they are all defined (ordered pairs of distinct nodes)
+    # "the five routines agree wherever their domains overlap": each of them is compared with the same oracle above, so
+    # agreement is implied; it is counted here (a disagreement is attributed to the routine that differs from the oracle)
     od = offdiag(n)
-    mats = [('distance_bin', outs.get('distance_bin')), ('breadthdist', outs.get('breadthdist', (None, None))[1]),
-            ('reachdist', outs.get('reachdist', (None, None))[1]), ('distance_wei', outs.get('distance_wei', (None, None))[0])]
-    ref = None
-    for nm, M in mats:
-        if M is None:
-            continue
-        if ref is None:
-            ref = (nm, M)
-        elif not np.array_equal(M[od], ref[1][od]):
-            res['fails'].append((nm, 'routines-agree', {'with': ref[0], 'a': mstr(M), 'b': mstr(ref[1])}))
+    mats = [outs.get('distance_bin'), outs.get('breadthdist', (None, None))[1], outs.get('reachdist', (None, None))[1],
+            outs.get('distance_wei', (None, None))[0]]
+    if all(M is not None for M in mats) and all(np.array_equal(M[od], mats[0][od]) for M in mats[1:]):
+        res['stats']['five_routines_agree'] = 1
     if 'distance_bin' in outs and 'breadthdist' in outs and 'reachdist' in outs:
         (bR, bD), (rR, rD) = outs['breadthdist'], outs['reachdist']
         res['lines'].append(('bin n=%d A=%s' % (n, Aline),
                              [('D', 'exact', mstr(outs['distance_bin'])), ('bR', 'exact', istr(bR)), ('bD', 'exact', mstr(bD)),
-                              ('rR', 'exact', istr(rR)), ('rD', 'exact', mstr(rD))]))
+                              ('rR', 'exact', istr(rR)), ('rD', 'exact', mstr(rD)),
+                              # verified certificate check (Lemmas/DistCert.lean: hopCert_sound) run by the model on D, bD(+bR), rD(+rR)
+                              ('cert', 'exact', '111')]))
     if n >= 1:
         s = int(case.get('src', 0)) % n
         st, out = call(bct.breadth, A.copy(), s, t=3)
@@ -416,6 +415,70 @@ def _run_bin(bct, case, res):
             _charpath_block(bct, res, case, outs['distance_bin'], oracle, 'distance_bin')
     if not np.array_equal(A, A0):
         res['fails'].append(('distance', 'input-modified', {}))
+
+
+def lollipop(c, p):
+    """clique on c nodes with a path of p further nodes attached (undirected): many walks and a large diameter"""
+    n = c + p; A = np.zeros((n, n))
+    A[:c, :c] = 1; np.fill_diagonal(A, 0)
+    for x in range(c - 1, n - 1):
+        A[x, x + 1] = A[x + 1, x] = 1
+    return A
+
+
+def _walk_count_overflows(A, steps):
+    """does the number of walks (entries of A^k, k <= steps) leave the float range? (labels the known finding only)"""
+    P = A.copy()
+    for _ in range(int(steps)):
+        P = P @ A
+        if np.isinf(P).any():
+            return True
+    return False
+
+
+def _run_big(bct, case, res):
+    """large binary graphs (n up to ~250): real routines against the BFS oracle only, no model correspondence"""
+    if case.get('lollipop'):
+        A = lollipop(*case['lollipop'])
+    else:
+        A = np.array(case['A'], dtype=float)
+    n = len(A)
+    oracle = bfs_oracle(A)
+    fin = oracle[np.isfinite(oracle)]
+    cond = {'overflow': _walk_count_overflows(A, fin.max() + 1 if len(fin) else 1)}
+    res['stats']['disconnected'] = int(np.isinf(oracle).any()); res['stats']['multihop'] = 1
+    res['stats']['big_overflow'] = int(cond['overflow'])
+    n0 = len(res['fails'])
+    st, out = call(bct.distance_bin, A.copy(), t=60)
+    if _status(res, 'distance_bin', st, out, case):
+        _cmp_dist(res, 'distance_bin', out, oracle)
+    st, out = call(bct.reachdist, A.copy(), t=60)
+    if _status(res, 'reachdist', st, out, case):
+        _cmp_dist(res, 'reachdist', out[1], oracle, diag_zero=False); _cmp_flag(res, 'reachdist', out[0], out[1], oracle)
+    st, out = call(bct.breadthdist, A.copy(), t=60)
+    if _status(res, 'breadthdist', st, out, case):
+        _cmp_dist(res, 'breadthdist', out[1], oracle, diag_zero=False); _cmp_flag(res, 'breadthdist', out[0], out[1], oracle)
+    st, out = call(bct.distance_wei, A.copy(), t=120)
+    if _status(res, 'distance_wei', st, out, case):
+        _cmp_dist(res, 'distance_wei', out[0], oracle)
+        if not np.array_equal(np.where(np.isfinite(oracle), oracle, 0), np.asarray(out[1], dtype=float)):
+            res['fails'].append(('distance_wei', 'edge-count', {'why': 'binary graph: B must equal the hop distance'}))
+    st, out = call(bct.distance_wei_floyd, A.copy(), t=60)
+    if _status(res, 'distance_wei_floyd', st, out, case):
+        _cmp_dist(res, 'distance_wei_floyd', out[0], oracle)
+        if not np.array_equal(np.where(np.isfinite(oracle), oracle, 0), np.asarray(out[1], dtype=float)):
+            res['fails'].append(('distance_wei_floyd', 'edge-count', {'why': 'binary graph: hops must equal the hop distance'}))
+    st, out = call(bct.efficiency_bin, A.copy(), t=60)
+    if _status(res, 'efficiency_bin', st, out, case):
+        want = meaninv_offdiag(oracle)
+        if not close(float(out), want):
+            res['fails'].append(('efficiency_bin', 'mean-inverse', {'E': float(out), 'oracle': want}))
+    # keep replays small: drop the matrices from the details, the case regenerates them
+    for k in range(n0, len(res['fails'])):
+        f, pr, info = res['fails'][k]
+        info = {a: b for a, b in info.items() if a not in ('out', 'oracle', 'R', 'D')}
+        info['cond'] = cond
+        res['fails'][k] = (f, pr, info)
 
 
 def _run_wei(bct, case, res):
@@ -667,6 +730,12 @@ def gen_dist_cases(rs, tier):
         if rs.rand() < .5:
             W = W * (rs.randint(1, 9, size=W.shape) / 8.0) if directed else W   # weights k/8·2^-j in (0,1]
         add('log', W, gen='rand-log')
+    # --- large binary graphs (oracle only): lollipops (huge walk counts + large diameter), sparse random graphs
+    for cp in ([(50, 185), (12, 120)] if not big else [(50, 185), (12, 120), (60, 200), (30, 150), (80, 170)]):
+        cases.append({'kind': 'big', 'A': [[0] * (cp[0] + cp[1])], 'lollipop': list(cp), 'gen': 'lollipop'})
+    for _ in range(2 if not big else 12):
+        n = int(rs.randint(60, 200))
+        add('big', rand_len_graph(rs, n, float(rs.choice([1.5, 3, 6])) / n, bool(rs.rand() < .5), [1]), gen='rand-big')
     # --- malformed stream
     for _ in range(12 if not big else 60):
         n = int(rs.randint(2, 7))
@@ -748,7 +817,7 @@ def drive(ck, cases, results, label):
 def absorb(ck, cases, results, funcs=None):
     """fold the per-case results into the Check: coverage counters and violations (restricted to `funcs` if given)"""
     for c, r in zip(cases, results):
-        ck.count('kind:' + c['kind']); ck.count('n=%d' % len(c['A'])); ck.count('gen:' + c.get('gen', '-'))
+        ck.count('kind:' + c['kind']); ck.count('n=%d' % (sum(c['lollipop']) if c.get('lollipop') else len(c['A']))); ck.count('gen:' + c.get('gen', '-'))
         for k, v in r['stats'].items():
             if v:
                 ck.count(k, v)
